@@ -435,6 +435,11 @@ def main():
     fps.append("]")
     fps.append("")
     fps.append("end BV.Gen")
+    # allocation-ledger items (C09): owning fields of the encoder state, cleanup list, site flags
+    import gen_ledger
+    _ll, _le = gen_ledger.emit(tokens_of, find_fn)
+    lines.extend(_ll)
+    errors.extend(_le)
     lines.append("end BV.Gen")
 
     def write_if_changed(p, content):
